@@ -454,7 +454,8 @@ func vf07CheckExtWrite(st *vfStats, t vfFataler, id uint16, body []byte, origin 
 	gram := vfCheckExtBody(id, body)
 	for _, w := range ws {
 		name := fmt.Sprintf("%T", w)
-		in := append([]byte(nil), body...)
+		in := make([]byte, len(body)) // exact capacity: slicing past the end must fault, not read slack
+		copy(in, body)
 		var n int
 		var err error
 		if p := vfCatch(func() { n, err = w.Write(in) }); p != nil {
